@@ -1,3 +1,92 @@
-From TV Require Import Base.
-Theorem C05_placeholder : True. Proof. exact I. Qed.
-Print Assumptions C05_placeholder.
+(* C05 -- a registered death string aborts the read in which it completes, never earlier.
+   Property theorems only; proofs are in ProofC05.v.
+   hs = for every registered entry, the data that went through _check since ITS registration.
+   dinv ds hs says: every ring is exactly the last 2*len bytes of that data, and the data does not
+   (yet) contain the string. *)
+From TV Require Import Base BaseLemmas Utf8 Regex RegexLemmas Channel ChannelLemmas ProofC05.
+
+(* (1) the whole of _check, for any set of simultaneously registered literal strings of different
+       lengths and any incoming piece (any length, any position of an occurrence relative to the
+       scan windows): nothing raised  <=>  afterwards still no string occurs in its data;
+       raised => that string occurs in the data received since its registration, ending inside
+       this very piece (prefix p of it) *)
+Theorem C05_check_raises_iff_string_completed :
+  forall incoming c hs,
+  dinv (deaths c) hs ->
+  match check incoming c with
+  | (None, c') => dinv (deaths c') (map (fun h => h ++ incoming) hs)
+  | (Some (exc, mt), c') =>
+      exists e h p q, In e (deaths c) /\ In h hs /\ incoming = p ++ q /\
+                      d_str e = SLit mt /\ d_exc e = exc /\ contains mt (h ++ p) = true
+  end.
+Proof. exact check_literals. Qed.
+Print Assumptions C05_check_raises_iff_string_completed.
+
+(* (1b) the invariant really excludes an occurrence: so "nothing raised" means "no registered string
+        occurs in the data received since its registration", i.e. an occurrence is never missed *)
+Theorem C05_invariant_means_no_occurrence :
+  forall ds hs, dinv ds hs ->
+  Forall2 (fun e h => exists l, d_str e = SLit l /\ contains l h = false) ds hs.
+Proof. exact dinv_no_occurrence. Qed.
+Print Assumptions C05_invariant_means_no_occurrence.
+
+(* (2) never earlier *)
+Theorem C05_never_earlier :
+  forall incoming c hs exc mt c',
+  dinv (deaths c) hs -> check incoming c = (Some (exc, mt), c') ->
+  exists e h, In e (deaths c) /\ In h hs /\ d_str e = SLit mt /\ d_exc e = exc /\
+              contains mt (h ++ incoming) = true.
+Proof. exact ds_sound. Qed.
+Print Assumptions C05_never_earlier.
+
+(* (3) whatever read method is in use: every method is a loop of read_iter iterations (read(-1) does
+       the same steps inline), and one iteration raises / keeps the invariant exactly as _check does *)
+Theorem C05_every_read_iteration :
+  forall start tmo n c r c' hs,
+  dinv (deaths c) hs -> iter_step start tmo n c = (r, c') ->
+  match r with
+  | SData new => dinv (deaths c') (map (fun h => h ++ new) hs)
+  | SDeath exc mt => exists new e h, In e (deaths c) /\ In h hs /\ d_str e = SLit mt /\ d_exc e = exc /\
+                                     contains mt (h ++ new) = true
+  | _ => deaths c' = deaths c
+  end.
+Proof. exact iter_step_deaths. Qed.
+Print Assumptions C05_every_read_iteration.
+
+(* (4) registration starts from an empty history (data received BEFORE registration never counts);
+       with nothing registered nothing is ever raised *)
+Theorem C05_registration :
+  forall l exc c hs,
+  l <> [] -> dinv (deaths c) hs -> dinv (deaths (push_death (SLit l) exc c)) ([] :: hs).
+Proof. exact push_death_inv. Qed.
+Print Assumptions C05_registration.
+
+Theorem C05_nothing_registered_nothing_raised :
+  forall incoming c, deaths c = [] -> check incoming c = (None, c).
+Proof. exact no_deaths_never_raises. Qed.
+Print Assumptions C05_nothing_registered_nothing_raised.
+
+(* (5) the combinatorial core: with scan windows no longer than the string, a new occurrence always
+       lies within the last 2*len bytes, i.e. inside the ring buffer *)
+Theorem C05_window_lemma :
+  forall l a w,
+  contains l a = false -> contains l (a ++ w) = true -> length w <= length l ->
+  contains l (take_last (2 * length l) (a ++ w)) = true.
+Proof. exact window_detect. Qed.
+Print Assumptions C05_window_lemma.
+
+(* (6) bounded-regex death strings (partial: soundness only) -- what is reported is a word of the
+       pattern's language found in the ring buffer *)
+Theorem C05_regex_sound_partial :
+  forall r ring mt,
+  ds_hit (SRe r) ring = Some mt ->
+  exists a b, mt = sublist a b ring /\ exists w rest, skipn a ring = w ++ rest /\ lang r w.
+Proof. exact ds_hit_regex_sound. Qed.
+Print Assumptions C05_regex_sound_partial.
+
+(* the witness of the defect that was repaired (fix: commit fe38290): b"ab" in the single piece b"xxxabyyy" *)
+Theorem C05_d1_witness_now_detected :
+  let c := push_death (SLit [97; 98]%N) 7 (chan_init [(0%Z, [120; 120; 120; 97; 98; 121; 121; 121]%N)] []) in
+  fst (read (-1) None c) = EDeath 7 [97; 98]%N.
+Proof. exact d1_witness_detected. Qed.
+Print Assumptions C05_d1_witness_now_detected.
